@@ -27,6 +27,8 @@ Self_TreeConsistent == Consistent(T)
 NMust == Cardinality({n \in 1..Len(Obs) : MustError(Rng(Obs[n].entries)) # {}})
 NMay == Cardinality({n \in 1..Len(Obs) : MayError(Rng(Obs[n].entries)) # {}})
 NMapped == Cardinality({n \in 1..Len(Obs) : Obs[n].rd.outcome = "mapping" /\ Len(Obs[n].rd.mapping) > 1})
+NOddRoot == Cardinality({n \in 1..Len(Obs) : Obs[n].root # "plain"})
+Self_RootKnown == Obs[i].root \in RootKinds
 NIgnored == Cardinality({n \in 1..Len(Obs) : \E e \in Rng(Obs[n].entries) : ~Snippet(e) /\ ~Unsettled(e)})
-ASSUME PrintT(<<"@@PRINT@@ counters", Len(Obs), NMust, NMay, NMapped, NIgnored>>)
+ASSUME PrintT(<<"@@PRINT@@ counters", Len(Obs), NMust, NMay, NMapped, NIgnored, NOddRoot>>)
 ====
